@@ -194,7 +194,7 @@ means (`Rounding2.welford_prefix_mean_error`, the running means of the online lo
 
 As for Welford's variance the first-order term `D/(n−1) ≈ n²·u·(R_x·Y + R_y·X)/(n−1)` is proportional to
 the *size* of the data (`Rounding2.welford_mean_term_necessary`), the rest is shift invariant. -/
-theorem online_error (x y : List (Fl M)) (X Y Rx Ry : ℝ) (hxy : x.length = y.length) (hn : 1 ≤ x.length)
+theorem online_error (x y : List (Fl M)) (X Y Rx Ry : ℝ) (hxy : x.length = y.length) (hn : 2 ≤ x.length)
     (hX : ∀ a ∈ x, |a.val| ≤ X) (hY : ∀ a ∈ y, |a.val| ≤ Y)
     (hRx : ∀ a ∈ x, ∀ b ∈ x, |a.val - b.val| ≤ Rx) (hRy : ∀ a ∈ y, ∀ b ∈ y, |a.val - b.val| ≤ Ry)
     (h1 : M.rnd 1 = 1) (hrx : ∀ a ∈ x, a.Rep) (hry : ∀ a ∈ y, a.Rep)
@@ -206,7 +206,7 @@ theorem online_error (x y : List (Fl M)) (X Y Rx Ry : ℝ) (hxy : x.length = y.l
             + x.length * (Rx * wE M x.length Y + Ry * wE M x.length X + wE M x.length X * wE M x.length Y))
           + x.length * (Rx * wE M x.length Y + Ry * wE M x.length X + wE M x.length X * wE M x.length Y))
           / ((x.length - 1 : Nat) : ℝ) := by
-  obtain ⟨v, hv, hp⟩ := Rounding5.online_pert_partial x y hxy hn hN
+  obtain ⟨v, hv, hp⟩ := Rounding5.online_pert_partial x y hxy (by omega) hN
   refine ⟨v, hv, ?_⟩
   set P := List.zip x y with hP
   have hPl : P.length = x.length := by simp [hP, hxy]
@@ -286,7 +286,10 @@ theorem rbf_matrix_near [ExpLnStd M] [PowStd M] (hid : M.Idem) (k : Gp.RBF (Fl M
   exact ⟨rbf_near_gen k _ _ 7 (rbfArg_fac_idem hid k _ _) hv.le h, Cv.Rounding5.rbf_pos k _ _ hv⟩
 
 /-- **RBF Gram matrix, range**: if moreover the library `exp` is `≤ 1` on non-positive arguments
-(`ExpLeOne`, a hypothesis separate from `ExpLnStd`), every entry satisfies `0 < K̂ᵢⱼ ≤ σ²(1+u)`. -/
+(`ExpLeOne`, a hypothesis separate from `ExpLnStd`), every entry satisfies `0 < K̂ᵢⱼ ≤ σ²(1+u)` IN THE
+IDEALISED MODEL `ExpLnStd` (relative accuracy of `exp` for every argument); at IEEE binary64 entries of well
+separated points underflow to exactly `0`, and only `0 ≤ K̂ᵢⱼ ≤ σ²(1+u)` holds (`Rounding3U.rbf_range_ufl` for the
+scalar form, to which every entry is equal by `C20.rbf_matrix_form_eq_scalar`). -/
 theorem rbf_matrix_range [ExpLnStd M] [PowStd M] [ExpLeOne M] (hid : M.Idem) (k : Gp.RBF (Fl M))
     (x y : Gp.Pts (Fl M)) (hx : PtsWF x) (hy : PtsWF y) (hxn : 0 < x.points.length)
     (hyn : 0 < y.points.length) (hv : 0 < k.var.val) :
